@@ -449,6 +449,15 @@ pub fn generate(rng: &mut Rng, tier: Tier, emit: &mut dyn FnMut(String)) {
         let (sop, dop) = if d.kind == "value" { ("sv", "dv") } else { ("sr", "dr") };
         let n_opt = all_leaves(d).iter().filter(|(f, _)| f.opt).count();
         let variants = db_variants(rng, d, tier);
+        if d.kind == "value" {
+            // a CQL type that is not a UDT
+            let vals = gen_vals(rng, d, None);
+            emit(format!("sv {} ; -:notudt ; {}", desc, toks(&vals)).trim_end().to_owned());
+            if info.de.is_some() {
+                emit(format!("dv {} ; -:notudt ; 00000001", desc));
+                emit(format!("dv {} ; -:notudt ; NULL", desc));
+            }
+        }
         for (vi, db) in variants.iter().enumerate() {
             // serialize: random values; on the first (identity) order every None pattern
             for _ in 0..reps {
@@ -523,6 +532,7 @@ fn parse_db(ws: &[&str]) -> Option<Vec<Col>> {
                 "text" => "text",
                 "list" => "list",
                 "udt" => "udt",
+                "notudt" if *w == "-:notudt" => "notudt",
                 "boolean" => "boolean",
                 _ => return None,
             };
@@ -914,6 +924,39 @@ pub fn run(case: &str, ctx: &mut Ctx) -> String {
     let whole_null = op == "dv" && sections[2] == ["NULL"];
     let Some(vals) = (if whole_null { Some(vec![]) } else { parse_vals(&sections[2]) }) else { return "bad-case".to_owned() };
     let lv = all_leaves(d);
+    // `-:notudt`: the generated code is handed a CQL type that is not a UDT
+    let not_udt = db.len() == 1 && db[0].ty == "notudt";
+    if db.iter().any(|c| c.ty == "notudt") && !(not_udt && (op == "sv" || op == "dv")) {
+        return "bad-case".to_owned();
+    }
+    if not_udt {
+        return match op {
+            "sv" => {
+                if vals.len() != lv.len() {
+                    return "bad-case".to_owned();
+                }
+                match (info.ser)(&vals, &db) {
+                    Ok(_) => {
+                        ctx.fail("a struct was serialized as a UDT into a column type that is not a UDT");
+                        "ok NOT-UDT-ACCEPTED".to_owned()
+                    }
+                    Err(e) => format!("err ser {}", ser_err_kind(&d.kind, &e)),
+                }
+            }
+            _ => {
+                let Some(de) = info.de else { return "bad-case".to_owned() };
+                let bytes = encode_cells(&vals);
+                match de(&db, if whole_null { None } else { Some(&bytes) }) {
+                    Ok(_) => {
+                        ctx.fail("a non-UDT column type passed the UDT type check");
+                        "ok NOT-UDT-ACCEPTED".to_owned()
+                    }
+                    Err(DeErr::TypeCheck(e)) => format!("err typecheck {}", tc_err_kind(&d.kind, &e)),
+                    Err(DeErr::Deser(e)) => format!("err deser {}", de_err_kind(&d.kind, &e)),
+                }
+            }
+        };
+    }
     match op {
         "sv" | "sr" => {
             if (op == "sv") != (d.kind == "value") || vals.len() != lv.len() {
